@@ -272,7 +272,9 @@ def expected_verify(root, top='Manifest', path='', last_mtime=None):
             return      # judged in the entry pass
         if st[0] == 'reg':
             offend(rel, 'stray')
-        elif st[0] == 'absent':
+        elif st[0] in ('absent', 'enotdir'):
+            # a directory entry that does not lead to anything (target missing, or a component of the target path is
+            # a regular file)
             v.dc.append('unlisted broken symlink')
         else:
             if st[0] == 'other' and st[1].startswith('errno'):
